@@ -504,14 +504,23 @@ class Bind(Generic[A, B], Evaluatable[B]):
         self.evaluatable = evaluatable
         self.func = func
 
+    def _bound(self, options: Options) -> Evaluatable[B]:
+        value = self.evaluatable(options)
+        try:
+            return self.func(value)
+        except EvaluationError:
+            raise
+        except Exception as e:
+            raise EvaluationError(f"Error binding {self.func!r}", self) from e
+
     def evaluate(self, options: Options) -> B:
         """Bind the function to the result of evaluating the object."""
-        return self.func(self.evaluatable(options)).evaluate(options)
+        return self._bound(options).evaluate(options)
 
     def validate(self, options: Options) -> None:
         """Validate the source object and the function"""
         self.evaluatable.validate(options)
-        self.func(self.evaluatable(options)).validate(options)
+        self._bound(options).validate(options)
 
     def keys(self, options: Options) -> Set[str]:
         """Return the keys the source object, function, and result depend on.
@@ -520,9 +529,7 @@ class Bind(Generic[A, B], Evaluatable[B]):
         the source object must be evaluated to determine the keys that the function's
         result depends on.
         """
-        return self.evaluatable.keys(options) | self.func(
-            self.evaluatable(options)
-        ).keys(options)
+        return self.evaluatable.keys(options) | self._bound(options).keys(options)
 
     def explain(self, options: Optional[Options] = None) -> Set[str]:
         """Return the keys the source object, function, and result depend on.
@@ -532,8 +539,8 @@ class Bind(Generic[A, B], Evaluatable[B]):
         result depends on.
         """
         try:
-            return self.evaluatable.explain(options) | self.func(
-                self.evaluatable(options)
+            return self.evaluatable.explain(options) | self._bound(
+                options or {}
             ).explain(options)
         except EvaluationError as e:
             raise InsufficientInformationError(f"Cannot explain {self}", self) from e
